@@ -1,1 +1,3 @@
 import KernProofs.C11
+import KernProofs.C16
+import KernProofs.C09
